@@ -147,6 +147,12 @@ func (e *Enc) Defs(name string) string {
 // CasesFileT is CasesFile for streams whose strings were written with Ref:
 // the string table comes first; decoder has type list str -> dec case.
 func CasesFileT(imports string, n int, body *Enc, decoder string) string {
+	return CasesFileTFrom(imports, 0, n, body, decoder)
+}
+
+// CasesFileTFrom is CasesFileT for one part of a run that is split over
+// several files: the n cases of body are numbered start, start+1, ...
+func CasesFileTFrom(imports string, start, n int, body *Enc, decoder string) string {
 	all := &Enc{}
 	all.Strs(body.table)
 	all.Int(n)
@@ -154,7 +160,7 @@ func CasesFileT(imports string, n int, body *Enc, decoder string) string {
 	var sb strings.Builder
 	sb.WriteString(Header(imports))
 	sb.WriteString(all.Defs("data"))
-	sb.WriteString("Definition M := Eval vm_compute in match decode_cases_t " + decoder + " data with Some cs => mismatches cs | None => [4294967295] end.\nPrint M.\n")
+	sb.WriteString(fmt.Sprintf("Definition M := Eval vm_compute in match decode_cases_t %s data with Some cs => mismatches_from case_ok %d cs | None => [4294967295] end.\nPrint M.\n", decoder, start))
 	return sb.String()
 }
 
